@@ -4,7 +4,7 @@
    each as an optional canonical text; floats, timestamps and timedeltas ARE their canonical text
    in this instantiation (F = T = D = str).                                                      *)
 From Coq Require Import NArith ZArith List String Ascii Bool.
-From Pq Require Import Base.Bytes Impl.Partition Extract.Sx.
+From Pq Require Import Base.Bytes Impl.Partition Impl.PyPaths Impl.PartMeta Extract.Sx.
 Import ListNotations.
 Open Scope string_scope.
 
@@ -151,6 +151,33 @@ Definition h_parse_int (a : list sx) : sx :=
   | _ => err "arity"
   end.
 
+(* (kind_of_pmeta (pandas_type numpy_type (labels-block)?)) -> the kind in the notation as_kind reads: what Impl/PartMeta.v makes of a
+   metadata block, to be compared with the harness glue harness/partlib.kind_of_meta *)
+Fixpoint as_pmeta_f (fuel : nat) (s : sx) : option pmeta :=
+  match fuel with O => None | S fuel' =>
+  match s with
+  | SL [pt; nt; SL []] => match as_str pt, as_str nt with Some pt, Some nt => Some (PMeta pt nt None) | _, _ => None end
+  | SL [pt; nt; SL [l]] => match as_str pt, as_str nt, as_pmeta_f fuel' l with
+                           | Some pt, Some nt, Some l => Some (PMeta pt nt (Some l)) | _, _, _ => None end
+  | _ => None
+  end end.
+Fixpoint skind (k : kind) : sx :=
+  match k with
+  | KInt sg bits => SL [SZ 0; sbool sg; sN bits]
+  | KBool => SL [SZ 1]
+  | KStr => SL [SZ 2]
+  | KFloat single => SL [SZ 3; sbool single]
+  | KTime ns => SL [SZ 4; sbool ns]
+  | KCat None => SL [SZ 5]
+  | KCat (Some lk) => SL [SZ 5; skind lk]
+  | KTimeTz => SL [SZ 7]
+  end.
+Definition h_kind_of_pmeta (a : list sx) : sx :=
+  match a with
+  | [m] => match as_pmeta_f 4 m with Some m => skind (kind_of_pmeta m) | None => err "args" end
+  | _ => err "arity"
+  end.
+
 (* (unicode_tables) -> ((first code point of every run of ten decimal digits ...) (white space code points >= 127 ...)) *)
 Definition h_unicode_tables (a : list sx) : sx := SL [slist sN udigit_zeros; slist sN uspaces].
 
@@ -211,6 +238,6 @@ Definition h_read_model (a : list sx) : sx :=
 
 Definition table : list (string * handler) :=
   [("path_string", h_path_string); ("join_path", h_join_path); ("val_from_meta", h_val_from_meta);
-   ("val_to_num", h_val_to_num); ("parse_int", h_parse_int); ("unicode_tables", h_unicode_tables); ("path_to_cats", h_path_to_cats);
+   ("val_to_num", h_val_to_num); ("parse_int", h_parse_int); ("unicode_tables", h_unicode_tables); ("kind_of_pmeta", h_kind_of_pmeta); ("path_to_cats", h_path_to_cats);
    ("paths_to_cats", h_paths_to_cats); ("strip_tail", h_strip_tail);
    ("write_model", h_write_model); ("read_model", h_read_model)].
